@@ -12,6 +12,7 @@ from hypothesis import strategies as st
 
 from . import _c16_spec as S
 
+SERIES_P = 0.1  # share of (non-clean) pandas cases that use Series[T] / Index[T] annotations
 ATTRS = ["a", "b", "c", "d", "e", "f"]
 ALIASES = ["x", "y", "z", "w", 2020]
 # regex field names: pattern -> (matching labels, a non-matching label)
@@ -538,7 +539,7 @@ def gen_table(d, spec, exp):
 def build_case(draw, backend):
     d = D(draw)
     shape = d.choice(SHAPES)
-    series_case = backend == "pandas" and d.p(0.1) and not d.clean
+    series_case = backend == "pandas" and d.p(SERIES_P) and not d.clean
     spec = {"backend": backend, "classes": []}
     all_aliases = []  # aliases are unique over the whole hierarchy (siblings meet again in a diamond / mixin)
     for ci, bases in enumerate(shape):
